@@ -77,6 +77,18 @@ def gen_cases(tier, seed):
                                 cases.append({"id": cid, "sig": [edge, side, off, W, spelling, list(mask), signed], "edge": edge, "W": W, "side": side,
                                               "off": off, "spelling": spelling, "mask": list(mask), "signed": signed,
                                               "frac": rng.choice([0.0, 0.25, 0.9]) if spelling.startswith("frac") else 0.0})
+    # the process time zone must not matter (all SAML instants are UTC): a sample of the grid again under other zones
+    for tz in clock.ZONES[1:]:
+        for edge in EDGES:
+            for W in ((0, 180) if tier == "quick" else (0, 60, 3600)):
+                for side in ("reject", "accept"):
+                    if (edge.endswith("after-nooa") or edge == "scd-nb") and side == "accept":
+                        continue
+                    for off in ((2,) if tier == "quick" else (2, 100000)):
+                        mask = [1, 1, 1] if tier == "quick" else rng.choice(masks)
+                        cid = "%s-W%d-%s-o%d-Z-m%d%d%d-plain-tz%s" % (edge, W, side, off, mask[0], mask[1], mask[2], tz)
+                        cases.append({"id": cid, "sig": [edge, side, off, W, "Z", list(mask), 0, tz], "edge": edge, "W": W, "side": side, "off": off,
+                                      "spelling": "Z", "mask": list(mask), "signed": 0, "frac": 0.0, "tz": tz})
     # "any ... that is present": messages in which the element carrying a bound occurs more than once (several SubjectConfirmations,
     # AuthnStatements, Assertions) and only one occurrence is out of range; reject side only
     for elem, bound in MULTI:
@@ -200,6 +212,17 @@ def run_multi(case, ctx):
 
 
 def run_case(case, ctx):
+    if case.get("tz"):
+        with clock.process_tz(case["tz"]):
+            r = _run_case(case, ctx)
+        r.setdefault("counters", {})["cases_under_non_utc_zone"] = 1
+        for v in r.get("violations", []):
+            v["what"] += " [process time zone %s]" % case["tz"]
+        return r
+    return _run_case(case, ctx)
+
+
+def _run_case(case, ctx):
     if case.get("kind") == "multi":
         return run_multi(case, ctx)
     sp, idp = _pair(ctx, case["W"], case["signed"])
